@@ -35,10 +35,10 @@ type sliceVal struct {
 type rtr struct {
 	helpers map[string]*ast.FuncDecl // unexported straight-line helpers of the package, inlined at their calls
 	slices  map[string]sliceVal      // byte-slice parameters of the helper being inlined
-	env   map[string]ty
-	funcs map[string][]ty // result types of translated functions
-	lines []string
-	ver   map[string]int // SSA-style renaming is not needed: Lean `let` shadows
+	env     map[string]ty
+	funcs   map[string][]ty // result types of translated functions
+	lines   []string
+	ver     map[string]int // SSA-style renaming is not needed: Lean `let` shadows
 }
 
 func (t *rtr) expr(e ast.Expr) (string, ty, error) {
